@@ -953,6 +953,15 @@ func (env *specEnv) evalCall(n *ast.CallExpr) Value {
 			return PoisonV{"lastrecv_ argument"}
 		}
 		return c.Eq(c.Select(e.heapGet(env.state(), "chan#lastrecv", Array(Int, Int)), c.IntC(0)), ch)
+	case "closedhere_":
+		// the channel was closed by the function under verification itself (its own
+		// close statements, those of its deferred functions and of inlined callees)
+		ch, ok := env.eval(n.Args[0]).(*Term)
+		if !ok {
+			return PoisonV{"closedhere_ argument"}
+		}
+		so := Array(Int, Bool)
+		return c.And(c.Select(e.heapGet(env.state(), "chan#closedhere", so), ch), c.Not(c.Select(heapInit(c, "chan#closedhere", so), ch)))
 	case "closed_":
 		// the channel has been closed (ghost bit maintained by close())
 		ch, ok := env.eval(n.Args[0]).(*Term)
@@ -1614,6 +1623,9 @@ func (x *exec) havocModifies(s, old *State, cl *Clause, blk *Block, fn *ssa.Func
 		if item == "*" {
 			e.noteWrite(s, "*", wtarget{kind: wAll})
 			for _, key := range sortedSortKeys(e.heapSorts) {
+				if e.isFinal(key) {
+					continue
+				}
 				prev := e.heapGet(s, key, e.heapSorts[key])
 				s.heap[key] = c.Fresh("mod.H{"+key+"}", e.heapSorts[key])
 				if key == "chan#closed" {
@@ -1629,7 +1641,7 @@ func (x *exec) havocModifies(s, old *State, cl *Clause, blk *Block, fn *ssa.Func
 			key := strings.TrimPrefix(item, "heap:")
 			for _, k := range sortedSortKeys(e.heapSorts) {
 				so := e.heapSorts[k]
-				if keyMatches(key, k) {
+				if keyMatches(key, k) && !e.isFinal(k) {
 					e.noteWrite(s, k, wtarget{kind: wAll})
 					prev := e.heapGet(s, k, so)
 					s.heap[k] = c.Fresh("mod.H{"+k+"}", so)
